@@ -91,6 +91,9 @@ def flatten(n, resolve=None, depth=0):
             its = []
             for e in items.elts:
                 its.extend(f(e))
+            if not sep and not any(isinstance(e, ast.Starred) for e in items.elts):
+                # ''.join((a, b, c)) is the concatenation a + b + c
+                return its
             return [('join', sep, its, items)]
         if isinstance(items, ast.Name) and resolve is not None:
             r = resolve(items.id, 'list')
